@@ -290,6 +290,24 @@ func (e *Engine) proveGE0(target *Form, facts []geZero) (bool, string) {
 		if e.atomNonneg(a) {
 			all = append(all, geZero{formAtom(a), a + " >= 0"})
 		}
+		// an index search answers -1 or a position inside its first argument
+		if at := e.A.get(a); at != nil && len(at.Args) >= 1 {
+			switch at.Fn {
+			case "call:bytes.IndexByte", "call:bytes.Index", "call:bytes.IndexRune", "call:bytes.IndexAny", "call:bytes.LastIndexByte", "call:bytes.LastIndex",
+				"call:strings.IndexByte", "call:strings.Index", "call:strings.IndexRune", "call:strings.IndexAny", "call:strings.LastIndexByte", "call:strings.LastIndex":
+				var n *Form
+				switch h := at.Args[0].(type) {
+				case *SliceVal:
+					n = h.Len
+				case *StrVal:
+					n = formInt(int64(len(h.S)))
+				}
+				all = append(all, geZero{formAtom(a).Add(formInt(1)), trunc(a, 40) + " >= -1"})
+				if n != nil && intForm(n) {
+					all = append(all, geZero{n.Sub(formAtom(a)).Sub(formInt(1)), trunc(a, 40) + " < len"})
+				}
+			}
+		}
 		// upper bound of a byte / a bit vector of known width
 		if at := e.A.get(a); at != nil {
 			w := 0
